@@ -2,6 +2,7 @@ import RedoModel.Core.Main
 import RedoModel.Core.History
 import RedoModel.Lemmas.Deps
 import RedoModel.Lemmas.DepsSoundSpec
+import RedoModel.Lemmas.DepsSound41
 /-!
 # C01 — No stale target after a successful redo-ifchange
 Property theorems only.
@@ -12,8 +13,10 @@ the correspondence check runs against the real binaries on every history.  `Redo
 plain-target core (static ranked graph, failures, removals), for which C01 is proven completely and
 over all histories (`no_stale_plain_history`); the core is itself run against the real binaries
 and against the full model on plain histories by the same check (tools/core_check.py, verb
-`core-run`).  The full statement over the full model is kept visible as `no_stale_full`
-(a proposition, not yet a theorem).
+`core-run`).  For the full model C01 is proven for all *plain* histories (`no_stale_full_plain`: dynamic .do choice
+with `c`/`m` rows, edits of .do files, failures, removals, forced rebuilds, queries; not yet: checksums,
+always, ifcreate, hand-edited targets, kills); the statement for every history is kept visible as
+`no_stale_full` (a proposition, not yet a theorem).
 -/
 namespace C01
 open RedoModel.Deps
@@ -47,6 +50,44 @@ theorem invariant_reachable {g : P.Graph} (hg : P.Ordered g) (k n : Nat) (ops : 
     (hwf : ∀ op ∈ ops, op.WF g k) :
     P.Inv g ((P.run g k n P.init ops).R + 1) (P.run g k n P.init ops).w :=
   P.inv_reachable_next hg k n ops hwf
+
+/-! ### C01 on the full engine model, for plain histories -/
+
+/-- **C01 for the full engine model (`RedoModel/Deps.lean`), over all plain histories.**  Start from an empty
+project with any table of .do candidates (specific and default rules, any priorities); between commands the user
+may create/edit/remove/chmod sources and .do files, remove target files, give meaning to .do contents (plain
+scripts: any number of `redo-ifchange` commands, output a function of what they declared, any exit status), and run
+`redo`, `redo-ifchange` (with or without `-k`), `redo-ood`, `redo-targets`, `redo-sources` in any order, failing or
+not.  Whenever a `redo-ifchange ts` or `redo ts` then exits 0, every target named is up to date: it and,
+recursively, everything its chosen script declares hold exactly what the scripts in place produce from up-to-date
+inputs (`UpToDateD`: the script of a .do file is what the engine runs for its content).  Hypotheses: the scripts
+in place respect one strict rank at every point of the history (no cycles: C12), ids are below `n`, and the
+harness-level `OpsOk`: a `setProg` never redefines the meaning of a .do content that is currently in place (that
+would change a script without changing any file — see the kernel-checked counterexample `cx2_notUpToDate`). -/
+theorem no_stale_full_plain (n : Nat) (rules : Nat → List Nat) (rank : Nat → Nat) (ops : List UserOp) (ts : List Nat)
+    (kg forced : Bool) (hr : RulesOk rules) (hp : ∀ op ∈ ops, PlainOp rules op)
+    (hrk : ∀ w ∈ worldsOf n {} (initWorld rules) ops, Ranked rank w) (hN : ∀ f, rank f < n)
+    (hok : OpsOk n (initWorld rules) ops) :
+    let w := ops.foldl (fun w op => (applyOp {} n op w).2) (initWorld rules)
+    let r := runCmd {} n (if forced then .redo ts kg else .ifchange ts kg) w
+    r.1.status = 0 → ∀ t ∈ ts, UpToDateD r.2 t :=
+  noStalePlainD n rules rank ops ts kg forced hr hp hrk hN hok
+
+/-- The same with the original `UpToDate` of `DepsSoundSpec` (which requires every .do content in place to have a
+declared meaning): `NoStalePlain` with the two hypotheses its counterexamples force (`OpsOk`, `Meaningful`). -/
+theorem no_stale_full_plain' (n : Nat) (rules : Nat → List Nat) (rank : Nat → Nat) (ops : List UserOp) (ts : List Nat)
+    (kg forced : Bool) (hr : RulesOk rules) (hp : ∀ op ∈ ops, PlainOp rules op)
+    (hrk : ∀ w ∈ worldsOf n {} (initWorld rules) ops, Ranked rank w) (hN : ∀ f, rank f < n)
+    (hok : OpsOk n (initWorld rules) ops) :
+    let w := ops.foldl (fun w op => (applyOp {} n op w).2) (initWorld rules)
+    let r := runCmd {} n (if forced then .redo ts kg else .ifchange ts kg) w
+    r.1.status = 0 → Meaningful r.2 → ∀ t ∈ ts, UpToDate r.2 t :=
+  noStalePlain_partial n rules rank ops ts kg forced hr hp hrk hN hok
+
+/-- `NoStalePlain` exactly as first stated is false (a .do content without a declared meaning runs the default
+script; a `setProg` can change a script without touching a file): kept as a theorem so that the added hypotheses
+are seen to be necessary. -/
+theorem noStalePlain_as_first_stated_is_false : ¬ NoStalePlain := not_noStalePlain
 
 /-- Proven stage (plain targets over a static ranked graph, with failures, removals and forced
 rebuilds): a successful `redo-ifchange t` leaves `t` up to date — recursively, everything it
